@@ -10,7 +10,9 @@ import (
 	jsoniter "github.com/json-iterator/go"
 )
 
-var json = jsoniter.ConfigFastest
+// Do not use jsoniter.ConfigFastest here: it writes floats with 6 digits only (job variables would change on reload)
+// and does not escape object keys
+var json = jsoniter.Config{EscapeHTML: false}.Froze()
 
 type PersistedJob struct {
 	ID       uuid.UUID
